@@ -418,7 +418,12 @@ func (in *Interp) assert(c *Term, label string) {
 		return
 	}
 	neg := in.st.BNot(c)
-	r := in.feasible(neg)
+	// asked afresh, never from the feasibility cache: the verdict of an assertion must be the
+	// solver's answer for the assertion stack as it is now
+	r := in.sol.CheckWith(neg)
+	if neg.IsFalse() {
+		r = Unsat
+	}
 	in.res.AssertQueries++
 	switch r {
 	case Unsat:
